@@ -16,7 +16,11 @@ def A():
     try: res["A"]=ns.remove(name="x")
     except Exception as e: res["A"]=repr(e)
 ta=threading.Thread(target=A,name="A"); ta.start(); time.sleep(0.2)
-res["B"]=ns.remove(name="x"); SlowMem.gate.set(); ta.join()
+def B():
+    try: res["B"]=ns.remove(name="x")
+    except Exception as e: res["B"]=repr(e)
+tb=threading.Thread(target=B,name="B"); tb.start(); tb.join(1.0)   # with remove() fully locked B blocks here until A is released
+SlowMem.gate.set(); ta.join(); tb.join()
 print("C15 concurrent remove results:", res)
 # C18: worker bound
 config.THREADPOOL_SIZE=1; config.THREADPOOL_SIZE_MIN=1
@@ -30,7 +34,10 @@ done=threading.Event()
 p.process(lambda: None)       # worker runs job, then notify_done -> busy.remove pauses
 SlowSet.reached.wait()
 hold=threading.Event()
-p.process(lambda: hold.wait())  # accept thread: idle empty, num_workers()==0 <1 -> new worker
-SlowSet.gate.set(); time.sleep(0.3)
+def second():
+    try: p.process(lambda: hold.wait())  # accept thread: idle empty, num_workers()==0 <1 -> new worker
+    except Exception as e: print("C18 second job:", repr(e))
+t2=threading.Thread(target=second); t2.start(); t2.join(1.0)   # with the lock taken, process() waits for the finishing worker
+SlowSet.gate.set(); t2.join(); time.sleep(0.3)
 print("C18 workers with THREADPOOL_SIZE=1:", p.num_workers(), "busy",len(p.busy),"idle",len(p.idle))
 hold.set(); p.close()
